@@ -303,7 +303,7 @@ fn coverage(level: &CmdSpec, cmd: &clap::Command, page: &str, ctx: &mut Ctx) -> 
         let entry = format!("{}-{}(1)", display, sc.name);
         if sc.hide {
             ensure!(
-                !p.contains(&entry),
+                !contains_entry(&p, &entry),
                 "man:hidden-subcommand-shown",
                 "hidden subcommand entry {:?} appears in the page of {:?}\n{}",
                 entry,
@@ -313,7 +313,7 @@ fn coverage(level: &CmdSpec, cmd: &clap::Command, page: &str, ctx: &mut Ctx) -> 
             ctx.label("man:hidden-subcommand-checked");
         } else {
             ensure!(
-                p.contains(&entry),
+                contains_entry(&p, &entry),
                 "man:subcommand-missing",
                 "subcommand entry {:?} does not appear in the page of {:?}\n{}",
                 entry,
@@ -323,6 +323,23 @@ fn coverage(level: &CmdSpec, cmd: &clap::Command, page: &str, ctx: &mut Ctx) -> 
         }
     }
     Verdict::Pass
+}
+
+/// `entry` ("prog-sub(1)") occurs as a whole word: not as the tail of a longer name ("prog-x-sub(1)" / "su[b-one(1)]")
+fn contains_entry(page: &str, entry: &str) -> bool {
+    let mut from = 0;
+    while let Some(i) = page[from..].find(entry) {
+        let at = from + i;
+        let before = page[..at].chars().next_back();
+        if !before.map(|c| c.is_alphanumeric() || c == '-' || c == '_').unwrap_or(false) {
+            return true;
+        }
+        from = at + entry.len().max(1);
+        if from >= page.len() {
+            break;
+        }
+    }
+    false
 }
 
 fn twin_of(spec: &CmdSpec, subst: &[(String, String)]) -> (CmdSpec, CmdSpec) {
